@@ -623,3 +623,30 @@ mod boilterplate_tests {
     );
   }
 }
+
+#[cfg(samlang_verif)]
+pub(crate) mod verif_hooks {
+  //! Verification hooks (add-only, compiled only with `--cfg samlang_verif`).
+  use samlang_ast::hir::BinaryOperator;
+
+  pub(crate) fn evaluate_bin_op(operator: BinaryOperator, v1: i32, v2: i32) -> Option<i32> {
+    super::evaluate_bin_op(operator, v1, v2)
+  }
+
+  pub(crate) fn merge_binary_expression(
+    outer_operator: BinaryOperator,
+    inner_operator: BinaryOperator,
+    inner_const: i32,
+    outer_const: i32,
+  ) -> Option<(BinaryOperator, i32)> {
+    let inner = super::BinaryExpression {
+      operator: inner_operator,
+      e1: samlang_ast::mir::VariableName {
+        name: samlang_heap::PStr::INVALID_PSTR,
+        type_: samlang_ast::mir::INT_32_TYPE,
+      },
+      e2: inner_const,
+    };
+    super::merge_binary_expression(outer_operator, &inner, outer_const).map(|b| (b.operator, b.e2))
+  }
+}
